@@ -5,7 +5,7 @@
    codec):  one-shot utf-16/utf-32 without BOM decodes little-endian while the incremental decoder raises
    UnicodeError; the incremental utf-8-sig decoder returns '' for a truncated BOM even when final.
    Error *timing* inside a run is not modelled (an exception ends a run, only the fact is compared). *)
-From CssV Require Import Base Tokenizer CodecPyLib Codec.
+From CssV Require Import Base CodecPyLib Codec.
 Local Open Scope N_scope.
 
 Inductive kind := K8 | K8sig | K16 (bo : option bool) | K32 (bo : option bool) | KLatin | KAscii.
